@@ -1,5 +1,7 @@
 import Uft.Model.Argbuf
 import Uft.Lemmas.Argbuf
+import Uft.Model.MemRegion
+import Uft.Lemmas.MemRegion
 /-
 C09 — Captured arguments and return values are the values actually passed.
 
@@ -267,5 +269,196 @@ theorem c09_unreadable_never_read (m : Machine) (p : Nat) (strs : List (Nat × L
   rw [if_neg hp, if_pos hm]
 
 example : (⟨0x1000, 0x2000⟩ : Nat × Nat).1 ≤ 0x1fff ∧ ¬ ((⟨0x1000, 0x2000⟩ : Nat × Nat).1 ≤ 0x2000 ∧ 0x2000 < (⟨0x1000, 0x2000⟩ : Nat × Nat).2) := by decide
+
+/-! ### unreadable pointers: check_mem_region, its cache and the loads of the copy loop
+    (findings C09-PAGECROSS, C09-STALE, C09-S3; model `Uft/Model/MemRegion.lean`)
+
+`c09_unreadable_never_read` above is the *specification* of the verdict.  The theorems below are about
+the decision procedure itself, against an address space that may become any other address space
+between two traced calls (`Ev.space`: mmap, munmap, mprotect, brk, free(), other threads).
+`fixed = true` is the repaired design of proposed_fixes/C09-MEMPROBE.diff (the kernel is asked about
+the page, at the first byte and at every page boundary the copy reaches; nothing is cached),
+`fixed = false` the code as it is (a cache of /proc/self/maps lines that is never invalidated, heap end
+rounded up to 128 MB, stack start rounded down by 8 MB, first byte only). -/
+
+section MemRegion
+open Uft.MemRegion
+
+/-- Repaired design, one call: once the check has passed, every address the copy loop loads
+    (`&str[i]`, up to 99 of them) lies in a page that is readable *now* — for every address space
+    with page-granular mappings, every pointer, every memory contents and every amount of room left in
+    the slice; the same for the 16 bytes of a std::string object and the string it points to.  Hence
+    the call does not fault. -/
+theorem c09_copy_reads_only_mapped (sp : Space) (hal : Aligned sp) (c : Cache) (get : Nat → MByte) (p room : Nat) :
+    ((check true c sp p).1 = true → ∀ a ∈ loopReads true sp get p room, readable sp a = true) ∧
+    isFault (strCall true c sp get p room).1 = false ∧
+    isFault (objCall true c sp get p room).1 = false :=
+  ⟨fun h => strCall_fixed_reads hal get p room (by simpa [check] using h),
+   (strCall_fixed_no_fault hal c get p room).1, (objCall_fixed_no_fault hal c get p room).1⟩
+
+example : Aligned [{ start := 0x1000, stop := 0x2000 }] ∧
+    (check true {} [{ start := 0x1000, stop := 0x2000 }] 0x1ffd).1 = true := by decide
+
+/-- Repaired design, whole histories: whatever the thread's cache contained, however the address space
+    and the memory contents change between the calls and whatever pointers the calls pass, no traced
+    call ends in a fault. -/
+theorem c09_never_faults (c : Cache) (sp : Space) (get : Nat → MByte) (evs : List Ev)
+    (hal : AlignedHist sp evs) : ∀ o ∈ run true c sp get evs, isFault o = false :=
+  run_fixed_no_fault c evs sp get hal
+
+example : AlignedHist [{ start := 0x10000, stop := 0x20000 }]
+    [.str 0x18000 1020, .space [] (fun _ => 0), .str 0x18000 1020] := by
+  refine ⟨by decide, ?_⟩
+  show Aligned []
+  decide
+
+/-- Repaired design: a non-NULL pointer whose first byte cannot be read now is shown as an address and
+    nothing is loaded through it — for every cache state, i.e. after every history. -/
+theorem c09_unreadable_shown_as_address (sp : Space) (hal : Aligned sp) (c : Cache) (get : Nat → MByte)
+    (p room : Nat) (hp : p ≠ 0) (hr : readable sp p = false) :
+    strCall true c sp get p room = (.bad p, c) :=
+  strCall_fixed_unreadable hal c get p room hp hr
+
+example : readable [{ start := 0x1000, stop := 0x2000 }] 0x2000 = false := by decide
+
+/-- Repaired design: the value shown is the value passed.  A NUL-terminated string of up to 98 bytes that
+    can be read is captured as exactly its bytes; of a longer one exactly the first 99 bytes are loaded
+    (the packer keeps 95 and appends "..."); a string that runs into a page that cannot be read is
+    captured up to the end of the last readable page and nothing beyond it is loaded. -/
+theorem c09_readable_string_captured (sp : Space) (hal : Aligned sp) (c : Cache) (get : Nat → MByte)
+    (p room : Nat) (hp : p ≠ 0) :
+    (∀ n, n ≤ STR_MAX → n < room → (∀ j, j ≤ n → readable sp (p + j) = true) →
+        (∀ j, j < n → get (p + j) ≠ 0) → get (p + n) = 0 →
+        strCall true c sp get p room = (.str (bytesAt get p n), c)) ∧
+    (STR_MAX < room → (∀ j, j ≤ STR_MAX → readable sp (p + j) = true) → (∀ j, j ≤ STR_MAX → get (p + j) ≠ 0) →
+        strCall true c sp get p room = (.str (bytesAt get p (STR_MAX + 1)), c) ∧
+        loopReads true sp get p room = List.range' p (STR_MAX + 1)) ∧
+    (∀ n, 0 < n → n ≤ STR_MAX → n < room → (∀ j, j < n → readable sp (p + j) = true) →
+        (∀ j, j < n → get (p + j) ≠ 0) → (p + n) % PAGE = 0 → readable sp (p + n) = false →
+        strCall true c sp get p room = (.str (bytesAt get p n), c) ∧
+        loopReads true sp get p room = List.range' p n) :=
+  ⟨fun n hn hroom hr hnz hz => strCall_fixed_cstring hal c get p room n hp hn hroom hr hnz hz,
+   fun hroom hr hnz => strCall_fixed_long hal c get p room hp hroom hr hnz,
+   fun n hn0 hn hroom hr hnz hpg hun => strCall_fixed_cut hal c get p room n hp hn0 hn hroom hr hnz hpg hun⟩
+
+example : strCall true {} [{ start := 0x1000, stop := 0x2000 }] (Contents.get { fill := 65 }) 0x1ffd 1020
+    = (.str [65, 65, 65], {}) := by decide
+
+/-- The stack words of mcount_get_stack_arg / mcount_get_struct_arg (repaired: first and last byte are
+    probed): every byte that is copied is readable. -/
+theorem c09_stack_range_readable (sp : Space) (hal : Aligned sp) (c : Cache) (a n : Nat) (hn : n ≤ PAGE + 1) :
+    ∀ rs, (rangeReads true c sp a n).1 = some rs → ∀ x ∈ rs, readable sp x = true := by
+  intro rs h x hx
+  unfold rangeReads check at h
+  simp only [if_true] at h
+  split at h
+  · rename_i hok
+    simp only [Bool.and_eq_true, Bool.or_eq_true, decide_eq_true_eq] at hok
+    cases h
+    simp only [List.mem_map, List.mem_range] at hx
+    obtain ⟨j, hj, rfl⟩ := hx
+    exact range_readable hal a n hn hok.1 hok.2 j hj
+  · cases h
+
+example : (rangeReads true {} [{ start := 0x1000, stop := 0x3000 }] 0x1ff8 16).1 ≠ none := by decide
+
+/-- the values of `Uft.Argbuf.strVal` as outcomes -/
+def ofVal : Val → Outcome
+  | .null => .null
+  | .bad a => .bad a
+  | .str s => .str s
+  | _ => .null
+
+/-- the readable lines of an address space as the `regions` of an `Argbuf.Machine` -/
+def regionsOf (sp : Space) : List (Nat × Nat) := (sp.filter (fun m => m.r)).map (fun m => (m.start, m.stop))
+
+theorem mapped_regionsOf (m : Machine) (sp : Space) (hreg : m.regions = regionsOf sp) (hne : regionsOf sp ≠ [])
+    (p : Nat) : mapped m p = readable sp p := by
+  unfold mapped
+  rw [hreg]
+  have : (regionsOf sp).isEmpty = false := by
+    cases h : regionsOf sp with
+    | nil => exact absurd h hne
+    | cons _ _ => rfl
+  rw [this, Bool.false_or]
+  unfold regionsOf readable Mapping.has
+  rw [List.any_map, List.any_filter]
+  congr 1
+
+/-- The repaired decision procedure computes the specified classification (`strVal`, the input of
+    `c09_parse_pack` and of `c09_unreadable_never_read`): NULL, an unreadable pointer and a readable
+    NUL-terminated string of up to 98 bytes are classified as the specification says, by looking at the
+    address space as it is now. -/
+theorem c09_repaired_check_meets_spec (m : Machine) (sp : Space) (hal : Aligned sp)
+    (hreg : m.regions = regionsOf sp) (hne : regionsOf sp ≠ []) (c : Cache) (get : Nat → MByte) (p room : Nat) :
+    (p = 0 → (strCall true c sp get p room).1 = ofVal (strVal m p)) ∧
+    (p ≠ 0 → readable sp p = false → (strCall true c sp get p room).1 = ofVal (strVal m p)) ∧
+    (∀ n, p ≠ 0 → n ≤ STR_MAX → n < room → (∀ j, j ≤ n → readable sp (p + j) = true) →
+        (∀ j, j < n → get (p + j) ≠ 0) → get (p + n) = 0 → lookup m.strs p = some (bytesAt get p n) →
+        (strCall true c sp get p room).1 = ofVal (strVal m p)) := by
+  refine ⟨?_, ?_, ?_⟩
+  · intro h; subst h; simp [strCall, strVal, ofVal]
+  · intro hp hr
+    rw [strCall_fixed_unreadable hal c get p room hp hr]
+    unfold strVal
+    rw [if_neg hp, if_pos (by rw [mapped_regionsOf m sp hreg hne]; exact hr)]
+    rfl
+  · intro n hp hn hroom hr hnz hz hl
+    rw [strCall_fixed_cstring hal c get p room n hp hn hroom hr hnz hz]
+    unfold strVal
+    have h0 := hr 0 (Nat.zero_le _)
+    simp only [Nat.add_zero] at h0
+    rw [if_neg hp, if_neg (by rw [mapped_regionsOf m sp hreg hne, h0]; decide), hl]
+    rfl
+
+example : regionsOf [{ start := 0x1000, stop := 0x2000 }] ≠ [] := by decide
+
+/-! #### the code as it is: one witness per way to fault -/
+
+/-- C09-PAGECROSS (only the first byte is checked).  One readable page `[0x1000, 0x2000)` full of 'A',
+    nothing mapped behind it; the traced function receives a pointer to its last 3 bytes (a buffer that
+    is not NUL-terminated).  Today's code loads `0x2000` and the traced program dies; the repaired code
+    shows "AAA".  The same for a std::string object whose second word lies in the next page. -/
+theorem c09_prefix_pagecross_witness :
+    run false {} [{ start := 0x1000, stop := 0x2000 }] (Contents.get { fill := 65 }) [.str 0x1ffd 1020] = [.fault 0x2000] ∧
+    run true {} [{ start := 0x1000, stop := 0x2000 }] (Contents.get { fill := 65 }) [.str 0x1ffd 1020] = [.str [65, 65, 65]] ∧
+    run false {} [{ start := 0x1000, stop := 0x2000 }] (Contents.get { fill := 65 }) [.obj 0x1ff8 1020] = [.fault 0x2000] ∧
+    run true {} [{ start := 0x1000, stop := 0x2000 }] (Contents.get { fill := 65 }) [.obj 0x1ff8 1020] = [.bad 0x1ff8] := by
+  refine ⟨by decide, by decide, by decide, by decide⟩
+
+/-- C09-STALE (the cache is never invalidated).  A mapping `[0x10000, 0x20000)` holds "first" at 0x18000;
+    a first call captures it (the mapping enters the cache), the program unmaps the region — or makes
+    it PROT_NONE — and a second call passes the now dangling pointer: today's code still finds it in the
+    cache and loads from it; the repaired code shows the address. -/
+theorem c09_prefix_stale_witness :
+    let sp : Space := [{ start := 0x10000, stop := 0x20000 }, { start := 0x7ffff000, stop := 0x80000000, kind := .stack }]
+    let mem : Contents := { chunks := [(0x18000, [102, 105, 114, 115, 116, 0])] }
+    run false {} sp mem.get [.str 0x18000 1020, .space (munmap sp 0x10000 0x20000) mem.get, .str 0x18000 1020]
+      = [.str [102, 105, 114, 115, 116], .fault 0x18000] ∧
+    run true {} sp mem.get [.str 0x18000 1020, .space (munmap sp 0x10000 0x20000) mem.get, .str 0x18000 1020]
+      = [.str [102, 105, 114, 115, 116], .bad 0x18000] ∧
+    run false {} sp mem.get [.str 0x18000 1020, .space (mmap sp 0x18000 0x19000 false) mem.get, .str 0x18000 1020]
+      = [.str [102, 105, 114, 115, 116], .fault 0x18000] ∧
+    run true {} sp mem.get [.str 0x18000 1020, .space (mmap sp 0x18000 0x19000 false) mem.get, .str 0x18000 1020]
+      = [.str [102, 105, 114, 115, 116], .bad 0x18000] := by
+  refine ⟨by decide, by decide, by decide, by decide⟩
+
+/-- C09-S3 (rounding).  `[heap]` is `[0x1000000, 0x1021000)`: every address up to 0x8000000 (the end
+    rounded up to 128 MB) is accepted without a lookup, so a pointer 1 MB past the program break is
+    loaded from; and with `[stack]` at `[0x7ffffffde000, 0x7ffffffff000)` every address down to
+    0x7fffff800000 (the start rounded down by 8 MB) is accepted.  After brk() moved the break down the
+    old range is still accepted. -/
+theorem c09_prefix_s3_witness :
+    let sp : Space := [{ start := 0x1000000, stop := 0x1021000, kind := .heap },
+                       { start := 0x7ffffffde000, stop := 0x7ffffffff000, kind := .stack }]
+    run false {} sp (fun _ => 65) [.str 0x1121000 1020] = [.fault 0x1121000] ∧
+    run true {} sp (fun _ => 65) [.str 0x1121000 1020] = [.bad 0x1121000] ∧
+    run false {} sp (fun _ => 65) [.str 0x7fffff900000 1020] = [.fault 0x7fffff900000] ∧
+    run true {} sp (fun _ => 65) [.str 0x7fffff900000 1020] = [.bad 0x7fffff900000] ∧
+    run false {} sp (fun _ => 0) [.str 0x1020ff0 1020, .space (setBrk sp 0x1010000) (fun _ => 0), .str 0x1020ff0 1020]
+      = [.str [], .fault 0x1020ff0] := by
+  refine ⟨by decide, by decide, by decide, by decide, by decide⟩
+
+end MemRegion
 
 end Uft.C09
